@@ -10,3 +10,4 @@ pub mod iolatch;
 pub mod judge;
 pub mod refsem;
 pub mod run;
+pub mod stdlib;
